@@ -14,9 +14,9 @@
     statement that contains an expression that contains (at any expression position, to any depth) a function literal
     whose body contains the hole.  `fn_ctx_refines`, `fn_ctx_congr_upto` (both directions, for `UptoEq s t`),
     `fn_ctx_run` (the same for `run`: exit status, stdout, stderr).
-  * what is NOT covered: a hole inside a PATTERN — a parameter list, the left-hand side of `:=`, `=`, `op=` or of a
-    `for` (a function literal can occur there only inside an index expression of an assignment target, as in
-    `xs[(fn() { □ })()] = 1`); the relation `RStmts` requires patterns to be identical on the two sides.
+  * nothing is left out: patterns (parameter lists, the left-hand sides of `:=`, `=`, `op=` and of `for`) may contain the
+    hole too (a function literal can occur there inside an index expression or a computed key, as in
+    `xs[(fn() { □ })()] = 1`); `validateArgs` only looks at the shape of the parameter patterns (`validateArgs_rel`).
 -/
 import SeedProofs.Lemmas.C01FnCtx2
 namespace Seed.C01
@@ -28,17 +28,17 @@ open Seed.Eqv (allocS alloc_pair getFunc_heap)
 /-- **Simulation for statement lists.**  `ss`, `ss'` related; the right state is the left state up to related function
     bodies.  Whatever the left run yields (not a time-out), the right run yields from some fuel on, up to related
     function bodies. -/
-theorem stmts_sim {ss ss' : List Stmt} (h : RStmts ss ss') {β : Addr → List Stmt} {σ : State} (hg : Good β σ) (sc : List Addr)
+theorem stmts_sim {ss ss' : List Stmt} (h : RStmts ss ss') {β : Repl} {σ : State} (hg : Good β σ) (sc : List Addr)
     (n : Nat) (hne : evalStmts n σ sc ss ≠ .timeout) :
     ∃ β' m₀, GoodRes β' (evalStmts n σ sc ss) ∧ ∀ m, m₀ ≤ m → evalStmts m (wb β σ) sc ss' = wbRes β' (evalStmts n σ sc ss) := by
   obtain ⟨β', hg', m₀, hm⟩ := (simAll n).evalStmts β σ sc ss ss' hg h hne
   exact ⟨β', m₀, hg', hm⟩
 
 /-- the bodies that are stored in `σ` -/
-def bodies (σ : State) (a : Addr) : List Stmt :=
+def bodies (σ : State) (a : Addr) : Code :=
   match σ.getFunc a with
-  | some fr => fr.stmts
-  | none => []
+  | some fr => (fr.args, fr.stmts)
+  | none => ([], [])
 
 theorem wb_bodies (σ : State) : wb (bodies σ) σ = σ := by
   have h : σ.heap.mapIdx (wbCell (bodies σ)) = σ.heap := by
@@ -51,7 +51,7 @@ theorem wb_bodies (σ : State) : wb (bodies σ) σ = σ := by
       cases c with
       | func fr =>
         have : σ.getFunc i = some fr := getFunc_heap.mpr hi
-        simp [wbCell, bodies, this, setBody]
+        simp [wbCell, bodies, this, setCode]
       | list xs => rfl
       | obj m => rfl
       | scope m => rfl
@@ -61,7 +61,7 @@ theorem wb_bodies (σ : State) : wb (bodies σ) σ = σ := by
 theorem good_bodies (σ : State) : Good (bodies σ) σ := by
   intro a fr h
   simp only [bodies, h]
-  exact RStmts.refl _
+  exact ⟨RExprs.refl _, RStmts.refl _⟩
 
 /-- the same, started in ONE state: the generalisation of `C01.stmt_ctx_refines` to related programs -/
 theorem stmts_sim_same {ss ss' : List Stmt} (h : RStmts ss ss') (n : Nat) (σ : State) (sc : List Addr)
@@ -86,11 +86,11 @@ def printB : Expr × SVal := (.mk (.Var c!"print") (0, 0), SVal.plain (.builtin 
 
 theorem evalProg_eq (n : Nat) (p : List Stmt) : evalProg n p = (evalBlock n State.init [] [printB] p).bind progK := rfl
 
-theorem wb_init (β : Addr → List Stmt) : wb β State.init = State.init := by
+theorem wb_init (β : Repl) : wb β State.init = State.init := by
   simp [wb, State.init]
 
 theorem prog_ev {p p' : List Stmt} (h : RStmts p p') (n : Nat) : Ev (evalProg n p) (fun m => evalProg m p') := by
-  have hb := (simAll n).evalBlock (fun _ => []) State.init [] [printB] p p' (good_init _) h
+  have hb := (simAll n).evalBlock (fun _ => ([], [])) State.init [] [printB] [printB] p p' (good_init _) (RBinds.refl _) h
   rw [wb_init] at hb
   have := Ev.bind (k := progK) (k' := fun _ => progK) hb (by
     intro β esc σ hg
@@ -123,7 +123,7 @@ theorem run_eq_progOutcome (fuel : Nat) (path src : List Char) (p : List Stmt) (
   cases evalProg fuel p <;> rfl
 
 /-- the outcome does not see function bodies -/
-theorem outcomeOf_wbRes (path : List Char) (β : Addr → List Stmt) (r : Res Unit) : outcomeOf path (wbRes β r) = outcomeOf path r := by
+theorem outcomeOf_wbRes (path : List Char) (β : Repl) (r : Res Unit) : outcomeOf path (wbRes β r) = outcomeOf path r := by
   cases r <;> rfl
 
 theorem outcome_timeout_iff (path : List Char) (r : Res Unit) : (outcomeOf path r).status = .timeout ↔ r = .timeout := by
@@ -189,6 +189,12 @@ theorem RItems.mid {e e' : Expr} (he : RExpr e e') (s : Bool) (before after : Li
     obtain ⟨be, bs⟩ := b
     exact .cons bs (RExpr.refl be) ih
 
+theorem RExprs.mid {e e' : Expr} (he : RExpr e e') (before after : List Expr) :
+    RExprs (before ++ e :: after) (before ++ e' :: after) := by
+  induction before with
+  | nil => exact .cons he (RExprs.refl after)
+  | cons b r ih => exact .cons (RExpr.refl b) ih
+
 theorem RProps.mid {p p' : PropItem} (before after : List PropItem)
     (h : ∀ {r r' : List PropItem}, RProps r r' → RProps (p :: r) (p' :: r')) :
     RProps (before ++ p :: after) (before ++ p' :: after) := by
@@ -224,6 +230,13 @@ inductive FCtx where
   | opAssign (lhs : Expr) (op : BinaryOp) (opLoc : Loc) (e : ECtx)
   /-- `return e;` -/
   | ret (loc : Loc) (e : ECtx)
+  /-- `p := rhs;` with the hole in the pattern `p` (likewise `=`, `op=`, `for p in …`) -/
+  | declareLhs (e : ECtx) (rhs : Expr)
+  | assignLhs (e : ECtx) (rhs : Expr)
+  | opAssignLhs (e : ECtx) (op : BinaryOp) (opLoc : Loc) (rhs : Expr)
+  | forLhs (e : ECtx) (iter : Expr) (body : List Stmt)
+  /-- `fn name(…, p, …) { body }` with the hole in the parameter pattern `p` -/
+  | fnArg (name : List Char) (nameLoc : Loc) (before : List Expr) (e : ECtx) (after : List Expr) (collect : Bool) (body : List Stmt)
   /-- `if … else if e { body } …` -/
   | ifCond (before : List Branch) (e : ECtx) (body : List Stmt) (later : List Branch) (els : Option (List Stmt))
   /-- `while e { body }` -/
@@ -234,6 +247,8 @@ inductive FCtx where
 inductive ECtx where
   /-- `fn(args) { □ }` -/
   | fn (args : List Expr) (collect : Bool) (c : FCtx) (loc : Loc)
+  /-- `fn(…, p, …) { body }` with the hole in the parameter pattern `p` -/
+  | fnArg (before : List Expr) (e : ECtx) (after : List Expr) (collect : Bool) (body : List Stmt) (loc : Loc)
   | binL (op : BinaryOp) (opLoc : Loc) (e : ECtx) (rhs : Expr) (loc : Loc)
   | binR (op : BinaryOp) (opLoc : Loc) (lhs : Expr) (e : ECtx) (loc : Loc)
   | listItem (before : List ListItem) (e : ECtx) (spread : Bool) (after : List ListItem) (collect : Bool) (loc : Loc)
@@ -268,11 +283,17 @@ def FCtx.plug : FCtx → List Stmt → List Stmt
   | .assign lhs e, s => [.Assign lhs (e.plug s)]
   | .opAssign lhs op ol e, s => [.OpAssign lhs op ol (e.plug s)]
   | .ret l e, s => [.Return l (e.plug s)]
+  | .declareLhs e rhs, s => [.Declare (e.plug s) rhs]
+  | .assignLhs e rhs, s => [.Assign (e.plug s) rhs]
+  | .opAssignLhs e op ol rhs, s => [.OpAssign (e.plug s) op ol rhs]
+  | .forLhs e iter body, s => [.For (e.plug s) iter body]
+  | .fnArg name nl before e after collect body, s => [.Func name nl (before ++ e.plug s :: after) collect body]
   | .ifCond before e body later els, s => [.If (before ++ .mk (e.plug s) body :: later) els]
   | .whileCond e body, s => [.While (e.plug s) body]
   | .forIter lhs e body, s => [.For lhs (e.plug s) body]
 def ECtx.plug : ECtx → List Stmt → Expr
   | .fn args collect c loc, s => .mk (.Func args collect (c.plug s)) loc
+  | .fnArg before e after collect body loc, s => .mk (.Func (before ++ e.plug s :: after) collect body) loc
   | .binL op ol e rhs loc, s => .mk (.BinaryOp op ol (e.plug s) rhs) loc
   | .binR op ol lhs e loc, s => .mk (.BinaryOp op ol lhs (e.plug s)) loc
   | .listItem before e spread after collect loc, s => .mk (.List (before ++ .mk (e.plug s) spread :: after) collect) loc
@@ -323,19 +344,27 @@ theorem FCtx.plug_rel {s t : List Stmt} (h : Refines s t) : (K : FCtx) → RStmt
     .cons (.ifs (RBranches.mid (RExpr.refl cond) (FCtx.plug_rel h c) before later) (ROptStmts.refl els)) .nil
   | .ifElse bs c => .cons (.ifs (RBranches.refl bs) (.some (FCtx.plug_rel h c))) .nil
   | .whileBody cond c => .cons (.whileS (RExpr.refl cond) (FCtx.plug_rel h c)) .nil
-  | .forBody lhs iter c => .cons (.forS lhs (RExpr.refl iter) (FCtx.plug_rel h c)) .nil
-  | .fnBody name nl args collect c => .cons (.func name nl args collect (FCtx.plug_rel h c)) .nil
+  | .forBody lhs iter c => .cons (.forS (RExpr.refl lhs) (RExpr.refl iter) (FCtx.plug_rel h c)) .nil
+  | .fnBody name nl args collect c => .cons (.func name nl collect (RExprs.refl args) (FCtx.plug_rel h c)) .nil
   | .exprStmt e => .cons (.expr (ECtx.plug_rel h e)) .nil
-  | .declare lhs e => .cons (.declare lhs (ECtx.plug_rel h e)) .nil
-  | .assign lhs e => .cons (.assign lhs (ECtx.plug_rel h e)) .nil
-  | .opAssign lhs op ol e => .cons (.opAssign lhs op ol (ECtx.plug_rel h e)) .nil
+  | .declare lhs e => .cons (.declare (RExpr.refl lhs) (ECtx.plug_rel h e)) .nil
+  | .assign lhs e => .cons (.assign (RExpr.refl lhs) (ECtx.plug_rel h e)) .nil
+  | .opAssign lhs op ol e => .cons (.opAssign op ol (RExpr.refl lhs) (ECtx.plug_rel h e)) .nil
+  | .declareLhs e rhs => .cons (.declare (ECtx.plug_rel h e) (RExpr.refl rhs)) .nil
+  | .assignLhs e rhs => .cons (.assign (ECtx.plug_rel h e) (RExpr.refl rhs)) .nil
+  | .opAssignLhs e op ol rhs => .cons (.opAssign op ol (ECtx.plug_rel h e) (RExpr.refl rhs)) .nil
+  | .forLhs e iter body => .cons (.forS (ECtx.plug_rel h e) (RExpr.refl iter) (RStmts.refl body)) .nil
+  | .fnArg name nl before e after collect body =>
+    .cons (.func name nl collect (RExprs.mid (ECtx.plug_rel h e) before after) (RStmts.refl body)) .nil
   | .ret l e => .cons (.ret l (ECtx.plug_rel h e)) .nil
   | .ifCond before e body later els =>
     .cons (.ifs (RBranches.mid (ECtx.plug_rel h e) (RStmts.refl body) before later) (ROptStmts.refl els)) .nil
   | .whileCond e body => .cons (.whileS (ECtx.plug_rel h e) (RStmts.refl body)) .nil
-  | .forIter lhs e body => .cons (.forS lhs (ECtx.plug_rel h e) (RStmts.refl body)) .nil
+  | .forIter lhs e body => .cons (.forS (RExpr.refl lhs) (ECtx.plug_rel h e) (RStmts.refl body)) .nil
 theorem ECtx.plug_rel {s t : List Stmt} (h : Refines s t) : (E : ECtx) → RExpr (E.plug s) (E.plug t)
-  | .fn args collect c loc => .mk loc (.func args collect (FCtx.plug_rel h c))
+  | .fn args collect c loc => .mk loc (.func collect (RExprs.refl args) (FCtx.plug_rel h c))
+  | .fnArg before e after collect body loc =>
+    .mk loc (.func collect (RExprs.mid (ECtx.plug_rel h e) before after) (RStmts.refl body))
   | .binL op ol e rhs loc => .mk loc (.binop op ol (ECtx.plug_rel h e) (RExpr.refl rhs))
   | .binR op ol lhs e loc => .mk loc (.binop op ol (RExpr.refl lhs) (ECtx.plug_rel h e))
   | .listItem before e spread after collect loc => .mk loc (.list collect (RItems.mid (ECtx.plug_rel h e) spread before after))
@@ -368,7 +397,7 @@ theorem fn_ctx_refines_stmts (K : FCtx) {s t : List Stmt} (h : Refines s t) (n :
   stmts_sim_same (K.plug_rel h) n σ sc hne
 
 /-- the same between two states that already differ in related function bodies (e.g. because `K[s]` / `K[t]` ran before) -/
-theorem fn_ctx_refines_stmts_rel (K : FCtx) {s t : List Stmt} (h : Refines s t) {β : Addr → List Stmt} {σ : State} (hg : Good β σ)
+theorem fn_ctx_refines_stmts_rel (K : FCtx) {s t : List Stmt} (h : Refines s t) {β : Repl} {σ : State} (hg : Good β σ)
     (sc : List Addr) (n : Nat) (hne : evalStmts n σ sc (K.plug s) ≠ .timeout) :
     ∃ β' m₀, GoodRes β' (evalStmts n σ sc (K.plug s)) ∧
       ∀ m, m₀ ≤ m → evalStmts m (wb β σ) sc (K.plug t) = wbRes β' (evalStmts n σ sc (K.plug s)) :=
